@@ -9,6 +9,7 @@ package main
 // every (schema, values slice) pair met.
 
 import (
+	"bytes"
 	"encoding/json"
 	"fmt"
 	"io"
@@ -50,6 +51,11 @@ type c14Case struct {
 	Expect  []c14Expect `json:"expect,omitempty"`
 	NoModel bool        `json:"noModel,omitempty"` // the document is outside the Coq model's keyword family
 	Tpl     string      `json:"tpl,omitempty"`
+	// round 5 (c14_num.go): Vals / chart values hold numbers exactly as written (json.Number); NumSrc says
+	// which dynamic type Helm would hold for the user's values: number (values files), int64 (--set), float64 (--set-json)
+	Exact   bool   `json:"exact,omitempty"`
+	NumSrc  string `json:"numSrc,omitempty"`
+	ViaFlag bool   `json:"viaFlag,omitempty"` // command layer: the user's values travel in Flags, not in the -f file
 }
 
 type c14Pair struct {
@@ -169,7 +175,7 @@ func (o *c14Obs) reference(c c14Case) {
 		o.RefStage = "load-error"
 		return
 	}
-	vals := deepCopyVals(c.Vals)
+	vals := c.userVals()
 	if err := chartutil.ProcessDependencies(ch, vals); err != nil {
 		o.RefStage = "deps-error"
 		return
@@ -192,7 +198,7 @@ func (o *c14Obs) reference(c c14Case) {
 			}
 			p := c14Pair{Chart: x.Name(), Valid: ok, Verdict: verdict}
 			if d.Schema.IsDoc {
-				p.dterm = fmt.Sprintf("(%s, %s, %s, %s)", coqVal(normJSON(d.Schema.Doc)), coqVal(slice), coqVerdict(verdict),
+				p.dterm = fmt.Sprintf("(%s, %s, %s, %s)", coqVal(normJSONNumber(d.Schema.Doc)), coqVal(slice), coqVerdict(verdict),
 					coqBool(!c.NoModel && verdict != "panic"))
 			} else {
 				p.term = fmt.Sprintf("(%s, %s, %s)", coqSchema(d.Schema), coqVal(slice), coqBool(ok))
@@ -233,7 +239,7 @@ func c14InstallVerdict(c c14Case) (rejected bool, names []string, ok bool) {
 	in := action.NewInstall(cfg)
 	in.ReleaseName, in.Namespace = "rel", "spaced"
 	in.DryRun, in.DryRunOption, in.ClientOnly, in.Replace = true, "client", true, true
-	_, err = in.Run(ch, deepCopyVals(c.Vals))
+	_, err = in.Run(ch, c.userVals())
 	if err == nil {
 		return false, nil, true
 	}
@@ -266,10 +272,10 @@ func (*c14) Execute(ci any) (res any) {
 	}()
 	if c.Op == "schema-step" {
 		// the schema step alone: Helm's ValidateAgainstSingleSchema on (values, schema bytes)
-		verdict := c14Verdict(deepCopyVals(c.Vals), c.Chart.Schema.bytes())
+		verdict := c14Verdict(c.userVals(), c.Chart.Schema.bytes())
 		obs.RefStage = "ok"
 		p := c14Pair{Chart: c.Chart.Name, Valid: verdict == "ok", Verdict: verdict}
-		p.dterm = fmt.Sprintf("(%s, %s, %s, %s)", coqVal(normJSON(c.Chart.Schema.Doc)), coqVal(deepCopyVals(c.Vals)), coqVerdict(verdict),
+		p.dterm = fmt.Sprintf("(%s, %s, %s, %s)", coqVal(normJSONNumber(c.Chart.Schema.Doc)), coqVal(c.userVals()), coqVerdict(verdict),
 			coqBool(!c.NoModel && verdict != "panic"))
 		obs.Pairs = []c14Pair{p}
 		if verdict != "ok" {
@@ -290,7 +296,7 @@ func (*c14) Execute(ci any) (res any) {
 	if c.Op == "lint" || c.Op == "cmd-lint" {
 		obs.InstallRejected, obs.InstallNames, obs.InstallKnown = c14InstallVerdict(c)
 		if c.Chart.Schema != nil {
-			in := chartutil.CoalesceTables(deepCopyVals(c.Vals), deepCopyVals(c.Chart.Values))
+			in := chartutil.CoalesceTables(c.userVals(), c14CopyVals(c.Chart.Values, c.Exact))
 			obs.DocInputKnown = true
 			obs.DocInputValid = chartutil.ValidateAgainstSingleSchema(in, c.Chart.Schema.bytes()) == nil
 		}
@@ -302,7 +308,7 @@ func (*c14) Execute(ci any) (res any) {
 		}
 		return obs
 	}
-	vals := deepCopyVals(c.Vals)
+	vals := c.userVals()
 	cfg, k := c14Config()
 	const ns = "spaced"
 	var opErr error
@@ -500,7 +506,7 @@ func (*c14) CoqCase(ci, oi any) string {
 	if strings.HasPrefix(c.Op, "cmd-") {
 		o := fmt.Sprintf("(mkObs %s %s %s %s %s %s)", coqBool(obs.Errored), coqBool(obs.Schema), coqStrList(obs.Names),
 			coqBool(obs.Stored), coqBool(obs.Sent), coqBool(obs.LintVals))
-		return fmt.Sprintf("(mkCase %s %s %s %s %s %s %s %s)", obs.chartTerm, coqVMap(deepCopyVals(c.Vals)), obs.compat, coqOpCmd(c),
+		return fmt.Sprintf("(mkCase %s %s %s %s %s %s %s %s)", obs.chartTerm, coqVMap(c.userVals()), obs.compat, coqOpCmd(c),
 			coqBool(c.Skip), coqBool(c.SkipCRDs), o, "[] []")
 	}
 	op := map[string]string{"install": "OpInstall", "install-dry": "OpInstallDry", "template": "OpTemplate",
@@ -515,7 +521,7 @@ func (*c14) CoqCase(ci, oi any) string {
 	}
 	o := fmt.Sprintf("(mkObs %s %s %s %s %s %s)", coqBool(obs.Errored), coqBool(obs.Schema), coqStrList(obs.Names),
 		coqBool(obs.Stored), coqBool(obs.Sent), coqBool(obs.LintVals))
-	return fmt.Sprintf("(mkCase %s %s %s %s %s %s %s %s)", obs.chartTerm, coqVMap(deepCopyVals(c.Vals)), obs.compat, op,
+	return fmt.Sprintf("(mkCase %s %s %s %s %s %s %s %s)", obs.chartTerm, coqVMap(c.userVals()), obs.compat, op,
 		coqBool(c.Skip), coqBool(c.SkipCRDs), o, coqList(pairs)+" "+coqList(dpairs))
 }
 
@@ -563,7 +569,12 @@ func (*c14) NonTrivial(_, oi any) bool {
 
 func (*c14) Decode(raw json.RawMessage) (any, error) {
 	var c c14Case
-	err := json.Unmarshal(raw, &c)
+	d := json.NewDecoder(bytes.NewReader(raw))
+	d.UseNumber() // exact cases keep their number literals; the others are brought back to float64 below
+	err := d.Decode(&c)
+	if err == nil && !c.Exact {
+		c.Vals = deepCopyVals(c.Vals)
+	}
 	return c, err
 }
 
@@ -656,6 +667,7 @@ func (*c14) Exhaustive(tier string) []any {
 		map[string]any{}, map[string]any{"x": 1.0}, map[string]any{"x": "s", "y": 2.0}, map[string]any{"y": nil},
 		map[string]any{"x": map[string]any{"z": true}}, map[string]any{"x": map[string]any{"z": 1.0}}, map[string]any{"x": map[string]any{}}}
 	out := append(c14CmdCases(tier), c14SpecCases(tier)...)
+	out = append(out, c14NumCases(tier)...)
 	for _, sc := range schemas {
 		for _, v := range values {
 			top := &vSchema{Type: "object", Props: map[string]*vSchema{"k": sc}}
